@@ -35,6 +35,7 @@ struct Fibre {
     char *stack;
     void *fake;                 // ASan fake stack handle
     bool done, started, parked;
+    bool wait_locks;            // inside the clear callback, waiting until no other thread is inside a lock operation
     volatile int *park_addr;
     int saved_in_lib;
     int id;
@@ -82,6 +83,7 @@ bool g_has_clr;
 // "stall" schedules (header bit 6, random schedules only): no fibre is ever parked, and the first time a thread finds the
 // lock flag taken, its holder is not scheduled for the next few thousand decisions -- a preempted holder, which a spin
 // lock must simply outwait (a lock that gives up after a bounded number of retries comes back empty although an owner exists)
+bool g_clr_waits;       // scenario flag (header bit 5, random schedules only)
 bool g_stall_mode;
 int g_flag_holder = -1, g_stall_victim = -1, g_stall_left = 0;
 bool g_stall_used;
@@ -220,6 +222,14 @@ void clr_cb(void *ptr, void *)
     HarnessScope hs;
     g_destroy_started = true;
     if (cur >= 0) yield_point("clear_cb", 0x23);
+    if (cur >= 0 && g_clr_waits) {
+        // a user's clear function may need something another thread holds while that thread is inside weak_ptr_lock (say a
+        // registry mutex): it waits until no other thread is in the middle of a lock. Under a correct library those locks
+        // can always finish without this thread; if they cannot (they spin on a flag this thread holds), nobody can run.
+        F[cur].wait_locks = true;
+        yield_point("clear_cb waits", 0x24);
+        F[cur].wait_locks = false;
+    }
     g_clr_count++;
     if (T > 0) no_stable_owner("the clear callback runs");
     if (ptr != g_managed) verif_fail("C06.clear.ptr", "clear callback received %p, the managed memory is %p", ptr, g_managed);
@@ -409,7 +419,12 @@ bool run_scheduler()
     for (;;) {
         std::vector<int> runnable;
         bool unfinished = false;
-        for (int t = 0; t < T; t++) if (!F[t].done) { unfinished = true; if (!F[t].parked) runnable.push_back(t); }
+        for (int t = 0; t < T; t++) if (!F[t].done) {
+            unfinished = true;
+            bool blocked = F[t].parked;
+            if (F[t].wait_locks) for (int u = 0; u < T; u++) if (u != t && !F[u].done && F[u].cur_kind == K_LOCK) blocked = true;
+            if (!blocked) runnable.push_back(t);
+        }
         if (!unfinished) return true;
         if (g_stall_left > 0) {
             g_stall_left--;
@@ -419,7 +434,7 @@ bool run_scheduler()
             if (g_stall_left == 0) g_stall_mode = false;     // from here on the ordinary rules (parking) apply again
         }
         if (runnable.empty())
-            verif_fail("C06.liveness.deadlock", "every unfinished thread waits for the lock flag: no thread can make progress");
+            verif_fail("C06.liveness.deadlock", "every unfinished thread waits (for the lock flag, or in its clear function for a lock operation of another thread to finish): no thread can make progress");
         if (++g_total_steps > (g_stall_mode ? 60000 : 20000))
             verif_fail("C06.liveness.steps", "scenario did not terminate within 20000 scheduling steps");
         // order: current fibre first if runnable
@@ -456,7 +471,8 @@ char *g_stacks[MAXT];
 void setup_scenario(Cursor &c)
 {
     uint8_t hb = c.u8();
-    T = 2 + (hb & 0x3f) % 3;
+    T = 2 + (hb & 0x1f) % 3;
+    g_clr_waits = (hb & 0x20) && !g_visited;
     g_book = g_managed = nullptr;
     g_clr_count = g_managed_frees = g_book_frees = 0;
     g_destroy_started = false;
@@ -488,6 +504,7 @@ void setup_scenario(Cursor &c)
         Fibre &f = F[t];
         f.id = t;
         f.done = f.started = f.parked = false;
+        f.wait_locks = false;
         f.park_addr = nullptr;
         f.saved_in_lib = 0;
         f.fake = nullptr;
@@ -586,7 +603,7 @@ void vf_run(const uint8_t *data, size_t len)
 void vf_gen(Rng &r, std::vector<uint8_t> &out)
 {
     // random scenario + PCT-like schedule (mostly "continue", a few preemptions)
-    out.push_back((uint8_t)(r.below(63) | (r.chance(1, 4) ? 0x80 : 0) | (r.chance(1, 25) ? 0x40 : 0)));      // threads; 1 in 4 without a clear callback; 1 in 25 with a stalled lock holder
+    out.push_back((uint8_t)(r.below(31) | (r.chance(1, 4) ? 0x80 : 0) | (r.chance(1, 25) ? 0x40 : 0) | (r.chance(1, 5) ? 0x20 : 0)));      // threads; 1 in 4 without a clear callback; 1 in 25 with a stalled lock holder
     for (int t = 0; t < MAXT; t++) {
         out.push_back(r.byte());
         out.push_back(r.byte());
